@@ -2,10 +2,12 @@ package handlers
 
 import (
 	"context"
+	"encoding/json"
 	"fmt"
 	"net"
 	"net/http"
 	"strconv"
+	"strings"
 	"time"
 
 	"github.com/thushan/olla/internal/adapter/converter"
@@ -15,6 +17,7 @@ import (
 	"github.com/thushan/olla/internal/adapter/translator/anthropic"
 	"github.com/thushan/olla/internal/app/middleware"
 	"github.com/thushan/olla/internal/config"
+	"github.com/thushan/olla/internal/core/constants"
 	"github.com/thushan/olla/internal/core/domain"
 	"github.com/thushan/olla/internal/core/ports"
 	"github.com/thushan/olla/internal/logger"
@@ -68,6 +71,12 @@ func (s *SecurityAdapters) CreateChainMiddleware() func(http.Handler) http.Handl
 					if err == nil && s.maxBodySize > 0 && r.ContentLength > s.maxBodySize {
 						status = http.StatusRequestEntityTooLarge // declared body above max_body_size
 					}
+					// Anthropic clients parse error objects, not text: refusals on the Anthropic
+					// routes are written in that dialect like every other error olla produces there
+					if strings.HasPrefix(r.URL.Path, anthropicRoutePrefix) {
+						writeAnthropicRefusal(w, status)
+						return
+					}
 					http.Error(w, "Security validation failed", status)
 					return
 				}
@@ -80,6 +89,26 @@ func (s *SecurityAdapters) CreateChainMiddleware() func(http.Handler) http.Handl
 			withAccessLogging.ServeHTTP(w, r)
 		})
 	}
+}
+
+// anthropicRoutePrefix is where the Anthropic translator's routes live
+const anthropicRoutePrefix = constants.DefaultOllaProxyPathPrefix + "anthropic/"
+
+// writeAnthropicRefusal writes a refusal of the security chain as an Anthropic error object
+func writeAnthropicRefusal(w http.ResponseWriter, status int) {
+	errType, message := "permission_error", "Security validation failed"
+	switch status {
+	case http.StatusTooManyRequests:
+		errType, message = "rate_limit_error", "Rate limit exceeded"
+	case http.StatusRequestEntityTooLarge:
+		errType, message = "request_too_large", "Request body exceeds the configured size limit"
+	}
+	w.Header().Set(constants.HeaderContentType, constants.ContentTypeJSON)
+	w.WriteHeader(status)
+	_ = json.NewEncoder(w).Encode(map[string]interface{}{
+		"type":  "error",
+		"error": map[string]interface{}{"type": errType, "message": message},
+	})
 }
 
 // CreateRateLimitMiddleware creates middleware that only applies rate limiting with enhanced logging
